@@ -356,6 +356,29 @@ def main():
             res.case(("beam", et, timo, "dirichlet"))
             if np.abs(u[nC, :2] - np.array(tipval[:2])).max() > 1e-9:
                 res.fail("lagrange dirichlet-value", f"prescribed tip displacement {tipval[:2]} but solution holds {u[nC, :2].tolist()}", ident)
+            # the multiplier path with every installed backend selected by the user: same solution, constraints and connection hold
+            for backend in BACKENDS:
+                try:
+                    beams_b = [Models.Beam.Isotropic(2, Line(pA, pB, L / 4), sect, E, v), Models.Beam.Isotropic(2, Line(pB, pC, L / 4), sect, E, v)]
+                    meshb = Mesher().Mesh_Beams(beams_b, elemType=ElemType(et))
+                    sb = Simulations.Beam(meshb, Models.Beam.BeamStructure(beams_b), useTimoshenko=timo)
+                    sb.solver = SolverType(backend)
+                except Exception:  # noqa: BLE001
+                    continue          # backend not installed
+                try:
+                    sb.add_dirichlet(meshb.Nodes_Point(pA), [0, 0, 0], ["x", "y", "rz"])
+                    sb.add_connection_fixed(meshb.Nodes_Point(pB))
+                    sb.add_dirichlet(meshb.Nodes_Point(pC), tipval[:2], ["x", "y"])
+                    sb.add_neumann(meshb.Nodes_Point(pC), [3.0], ["rz"])
+                    ub = np.asarray(sb.Solve()).reshape(-1, 3)
+                    res.case(("beam", et, timo, "lagrange-backend", backend))
+                    nBb, nCb = meshb.Nodes_Point(pB), meshb.Nodes_Point(pC)[0]
+                    scale_b = 1 + np.abs(u).max()
+                    if np.abs(ub - u).max() > 1e-6 * scale_b or np.abs(ub[nCb, :2] - np.array(tipval[:2])).max() > 1e-8 or (nBb.size >= 2 and np.abs(ub[nBb[0]] - ub[nBb[1]]).max() > 1e-8 * scale_b):
+                        res.fail(f"lagrange backend={backend}", f"multiplier path with simu.solver = {backend}: differs from the default solver by {np.abs(ub - u).max():.2e}, "
+                                 f"tip values off by {np.abs(ub[nCb, :2] - np.array(tipval[:2])).max():.2e}", dict(ident, backend=backend))
+                except Exception as ex:  # noqa: BLE001
+                    res.fail(f"lagrange backend={backend} raises", f"{type(ex).__name__}: {str(ex)[:120]}", dict(ident, backend=backend))
             # a dof entered twice on the multiplier path must hold the sum, as with elimination
             if et == "SEG2":
                 beams = [Models.Beam.Isotropic(2, Line(pA, pB, L / 4), sect, E, v), Models.Beam.Isotropic(2, Line(pB, pC, L / 4), sect, E, v)]
@@ -432,6 +455,15 @@ def main():
         res.case(("newton-dirichlet",))
         if np.abs(u[right] - np.array([0.05, 0.01])).max() > 1e-9:
             res.fail("newton incremental dirichlet", f"after the Newton solve the constrained dofs hold {u[right][0].tolist()} instead of [0.05, 0.01]", dict(sim="HyperElastic"))
+        # tiny prescribed values on a soft material (forces far below the absolute tolerance of the Newton loop): the constrained dofs still hold them
+        for E_small, ud_small in ((1e-3, 1e-4), (4.0, 1e-7)):
+            simu3 = Simulations.HyperElastic(mesh, Models.HyperElastic.SaintVenantKirchhoff(2, E_small, E_small))
+            simu3.add_dirichlet(left, [0.0, 0.0], ["x", "y"])
+            simu3.add_dirichlet(right, [ud_small, -ud_small / 2], ["x", "y"])
+            u3 = np.asarray(simu3.Solve()).reshape(-1, 2)
+            res.case(("newton-dirichlet-small", E_small, ud_small))
+            if np.abs(u3[right] - np.array([ud_small, -ud_small / 2])).max() > 1e-9 * ud_small:
+                res.fail("newton incremental dirichlet small forces", f"moduli {E_small}, prescribed displacement {ud_small}: after the Newton solve the constrained dofs hold {u3[right][0].tolist()}", dict(sim="HyperElastic", moduli=E_small, prescribed=ud_small))
         # the same dof entered twice with non-zero values: the sum convention must survive Newton iterations
         simu2 = Simulations.HyperElastic(mesh, Models.HyperElastic.SaintVenantKirchhoff(2, 4.0, 4.0))
         simu2.add_dirichlet(left, [0.0, 0.0], ["x", "y"])
